@@ -237,8 +237,61 @@ print(json.dumps(out))
     return dict(unit="self-reference", func="Compiler (run-time check)", paths=len(cases), obligations=obs, wall=0.0)
 
 
+# ------------------------------------------------------------------ bounded: character- and token-level mutation of a statement corpus
+MUT_SHARDS = 8
+RESOURCE_SITES = ("operators.lshift", "operators.lsh", "operators.rshift", "metacommands.repeat", "metacommands.blkb", "metacommands.blkw", "metacommands.align",
+                  "metacommands.even", "compiler.compile_block", "compiler.compile_insn", "compiler.fn")
+
+
+def classify_mutation_class(sig):
+    """known findings and resource-bound cases by the SITE of the failure (so that another failure elsewhere is still reported)"""
+    if sig.startswith("crash:DeferredCycle@"):
+        return "D16"
+    if sig.startswith("crash:IntStrLimit@"):
+        return "D36"
+    if sig.startswith("hang@deferred.") or sig.startswith("hang@types.") or sig == "hang@compiler.<lambda>":
+        return "D15"
+    if sig.startswith("resource:"):
+        return "resource"
+    return None
+
+
+def unit_mutation(eng, shard, tier="quick"):
+    import subprocess
+    import json
+    seed = int(os.environ.get("VERIF_SEED", "0") or 0)
+    p = subprocess.run(["/venv/bin/python", os.path.join(os.path.dirname(os.path.dirname(os.path.abspath(__file__))), "pyvc", "mutsearch.py"), driver.tree_root(), str(shard), str(MUT_SHARDS),
+                        tier, str(seed)], capture_output=True, text=True, cwd="/", timeout=7200)
+    name = "mutation[%d/%d]" % (shard, MUT_SHARDS)
+    func = "parse + Compiler (bounded mutation search)"
+    try:
+        r = json.loads(p.stdout.strip().splitlines()[-1])
+    except Exception:  # pylint: disable=broad-except
+        r = dict(runs=0, classes={"search-did-not-complete": [1, (p.stderr or p.stdout)[-300:]]})
+    new, known, resource = {}, {}, {}
+    for sig, (cnt, src) in r["classes"].items():
+        c = classify_mutation_class(sig)
+        if c == "resource":
+            resource[sig] = [cnt, src]
+        elif c in common.ACTIVE_FINDINGS:
+            known[sig] = [cnt, src, c]
+        else:
+            new[sig] = [cnt, src]
+    status = "proved" if r["runs"] and not new else "failed"
+    if status == "proved" and known:
+        status = "known-region"
+    ob = dict(label="every-mutant-ends-in-a-result-or-a-reported-error(no internal exception, no hang, no silent failure)", kind="bounded", status=status, secs=0.0, path=[], witness=None,
+              detail=json.dumps(dict(new=new, known_findings=known, resource_bound_not_decided=resource))[:3000], events=[], smt2=None, backend="cpython-native", unit=name, func=func,
+              bound="statement corpus shard %d of %d x (every single-character insertion from a 50-character set incl. NUL, DEL and non-ASCII, every deletion, every truncation, "
+                    "every token insertion/replacement from a 54-token set, seeded two-statement combinations); 3 s per run" % (shard, MUT_SHARDS),
+              cases=r["runs"], cfg=dict(kind="mutation", new=new))
+    return dict(unit=name, func=func, paths=r["runs"], obligations=[ob], wall=0.0)
+
+
+
 def units(tier):
-    us = [("random-programs", "unit_random_programs", dict(tier=tier)), ("self-reference", "unit_self_reference", {}), ("align", "unit_align_total", {}), ("bin", "unit_bin", {}),
+    us = [("mutation[%d]" % k, "unit_mutation", dict(shard=k, tier=tier)) for k in range(MUT_SHARDS)]
+    us += [("random-programs", "unit_random_programs", dict(tier=tier)), ("self-reference", "unit_self_reference", {}), ("align", "unit_align_total", {}), ("bin", "unit_bin", {}),
           ("awaiting", "unit_awaiting", {}), ("wait", "unit_wait", {}), ("promise", "unit_promise", {}), ("number", "unit_number", {}), ("encode", "unit_encode", {}),
           ("charliteral", "unit_charliteral", {}), ("include", "unit_include", {}), ("insert_file", "unit_insert_file", {}), ("repeat", "unit_repeat", {}),
           ("resolve-register", "unit_resolve_register", {}), ("try_as_register", "unit_try_as_register", {}), ("try_accumulator", "unit_try_accumulator", {})]
@@ -324,6 +377,13 @@ def replay(o, tree):
     cfg = o.get("cfg") or {}
     k = cfg.get("kind")
     src = None
+    if k == "mutation":
+        bad = []
+        for sig, (cnt, s_) in list(cfg.get("new", {}).items())[:12]:
+            out = _native_outcome(tree, s_ + "\n")
+            if out not in ("ok", "fail"):
+                bad.append((sig, s_, out))
+        return dict(jobs=[{"kind": "asm", "sources": [b[1] + "\n"]} for b in bad[:4]], expected="ok or fail (a result or a reported error)", observed=bad, reproduced=bool(bad))
     if k == "pct":
         spell = {"(%e)": "(%x)", "@%e": "@%x", "(%e)+": "(%x)+", "@(%e)+": "@(%x)+", "-(%e)": "-(%x)", "@-(%e)": "@-(%x)", "x(%e)": "2(%x)", "@x(%e)": "@2(%x)", "@(%e)": "@(%x)"}[cfg["shape"]]
         src = "clr %s\nx = 1\n" % spell if cfg.get("reg_lazy") else "clr %s\n" % spell.replace("x", "1")
@@ -372,4 +432,9 @@ def witness_D12(tree):
     return c07.witness_D12(tree)
 
 
-FINDING_WITNESS = {"D7": witness_D7, "D15": witness_D15, "D16": witness_D16, "D8": witness_D8, "D12": witness_D12}
+def witness_D36(tree):
+    out = _native_outcome(tree, ".word 1 _ 100000\n")
+    return out not in ("ok", "fail"), "'.word 1 _ 100000' -> %s" % out
+
+
+FINDING_WITNESS = {"D36": witness_D36, "D7": witness_D7, "D15": witness_D15, "D16": witness_D16, "D8": witness_D8, "D12": witness_D12}
